@@ -219,31 +219,52 @@ def body(c):
 
     # ---- G: documents --------------------------------------------------------------------------------
     n = 4 if c.quick else 5
-    small = gen_docs(c, 3, 1, 1, 1, 2 if not c.quick else 1, "small")          # all of them are used
-    plain = gen_docs(c, n, 0, 0, 0, 0, "plain")                                 # undecorated, incl. re-spread fragments
-    decor = gen_docs(c, 4, 1, 1, 1, 1 if c.quick else 2, "decorated")
-    total = len(set(small) | set(plain) | set(decor))
-    cap_plain, cap_decor = (700, 1300) if c.quick else (12000, 20000)
+    ndec = 1 if c.quick else 2
+    decor = gen_docs(c, 4, 1, 1, 1, ndec, "decorated")       # <=4 nodes, <=ndec decorations (contains every smaller document)
+    plain5 = [] if c.quick else gen_docs(c, 5, 0, 0, 0, 0, "plain")   # undecorated, 5 nodes, incl. re-spread fragments
+    total = len(set(decor) | set(plain5))
+
+    parsed = {}
+
+    def flat(x):
+        if x not in parsed:
+            parsed[x] = json.loads(x)
+        return parsed[x]
+
+    def nodes(x):
+        return len(flat(x))
+
+    def decorated(x):
+        return any(nd["dirs"] or nd["alias"] or nd["arg"] for nd in flat(x))
+    small = [x for x in decor if nodes(x) <= 3]
+    plain = [x for x in decor if nodes(x) == 4 and not decorated(x)] + [x for x in plain5 if nodes(x) == 5]
+    rest = [x for x in decor if nodes(x) == 4 and decorated(x)]
+    cap_small, cap_plain, cap_decor = (1500, 500, 1000) if c.quick else (len(small), 12000, 20000)
     exhaustive = True
+    if len(small) > cap_small:
+        small = rng.sample(small, cap_small)
+        exhaustive = False
     if len(plain) > cap_plain:
         keep = [x for x in plain if '"reuse"' in x]
-        rest = [x for x in plain if '"reuse"' not in x]
-        plain = keep[:cap_plain // 3] + rng.sample(rest, cap_plain - min(len(keep), cap_plain // 3))
+        others = [x for x in plain if '"reuse"' not in x]
+        keep = keep if len(keep) <= cap_plain // 3 else rng.sample(keep, cap_plain // 3)
+        plain = keep + rng.sample(others, cap_plain - len(keep))
         exhaustive = False
-    if len(decor) > cap_decor:
-        decor = rng.sample(decor, cap_decor)
+    if len(rest) > cap_decor:
+        rest = rng.sample(rest, cap_decor)
         exhaustive = False
+    decor = rest
     flats = sorted(set(small) | set(plain) | set(decor))
     docs = []
     dropped = 0
     for fs in flats:
-        d = tree_from_flat(json.loads(fs), rng, arg_names)
+        d = tree_from_flat(flat(fs), rng, arg_names)
         if conflicts(d):
             dropped += 1
             continue
         docs.append(d)
     # seeded random bigger documents (valid by construction; key conflicts filtered)
-    nrand = 400 if c.quick else 6000
+    nrand = 300 if c.quick else 6000
     made = 0
     while made < nrand:
         flat, spreads = random_flat(ts, rng, arg_names)
@@ -266,7 +287,7 @@ def body(c):
         docs.append(d)
         made += 1
     # two-operation documents (the measures are those of the whole document)
-    ntwo = 150 if c.quick else 1500
+    ntwo = 100 if c.quick else 1500
     base = [d for d in docs[:len(docs) - nrand]]
     for _ in range(ntwo):
         docs.append(two_ops(rng.choice(base), rng.choice(base)))
@@ -370,14 +391,14 @@ def body(c):
     c.cov["exhaustive"] = exhaustive
     c.cov["documents"] = len(docs)
     c.cov["runs"] = {"total": nrun, "rejected": nrej, "accepted_and_executed": nacc_ran, "per_kind_accept_reject": seen_kind}
-    c.cov["rule"] = ("G: every valid query document over the limits family with <=3 nodes and <=%d decoration(s), every undecorated one with <=%d nodes "
-                     "(named fragments spread once or twice, fragments in fragments) and every one with <=4 nodes and <=%d decoration(s) "
+    c.cov["rule"] = ("G: valid query documents over the limits family: with <=3 nodes and <=%d decoration(s), undecorated with <=%d nodes "
+                     "(named fragments spread once or twice, fragments in fragments) and with 4 nodes and <=%d decoration(s) "
                      "(argument feeding a rule: omitted / 0 / 1 / 4 / $c; 1-3 directives on a field; directive on a fragment; alias) -- TLC BFS of Gen_LimitDoc.tla, "
                      "%d documents%s, %d dropped for response-key conflicts -- plus %d seeded random documents (4-14 nodes, up to 5 directives per field) and %d "
                      "two-operation documents; crossed with the ways of defining/supplying $c; each run on the static family and (without @tag) its dynamic twin "
                      "with each limit at measure-1, measure, measure+1 (measure from TLC), one all-limits configuration and one fast-validation run; "
                      "distinct by (text, variables, flavour, mode, limits); every run is non-trivial (limit within 1 of the measure)"
-                     % (1 if c.quick else 2, n, 1 if c.quick else 2, total, "" if exhaustive else " (seeded sample of the larger sets)", dropped, nrand, ntwo))
+                     % (ndec, n, ndec, total, " (all of them)" if exhaustive else " (seeded sample of each set)", dropped, nrand, ntwo))
     for o in obs[:1] + [o for o in obs if o["doc"]["frags"]][:2]:
         c.sample({"text": o["text"], "vars": o["vars"], "measures": meas[o["id"]],
                   "runs": [{"flavour": r["flavour"], "limits": {k: x for k, x in r["limits"].items() if x >= 0}, "rejected": r["obs"]["rejected"], "ran": r["obs"]["ran"], "verdict": rv}
